@@ -89,7 +89,7 @@ func hasErrorAttr(as []GAttr) bool {
 		if a.Nil {
 			continue
 		}
-		if a.Val.Kind == "error" || a.Val.Kind == "stackerr" {
+		if a.Val.Kind == "error" || a.Val.Kind == "stackerr" || a.Val.Kind == "fmterr" {
 			return true
 		}
 		if a.Val.Kind == "group" && hasErrorAttr(a.Val.Items) {
@@ -105,7 +105,7 @@ func c06TestingCorpus() []EncRec {
 	texts := []string{"boom", "two\nlines", "with \x1b[31mred\x1b[0m escape", "bell\a and del\x7f", "tab\tand cr\r", "clear \x1b[2J screen", ""}
 	for _, mode := range []string{"color", "logfmt"} {
 		for i, t := range texts {
-			for _, kind := range []string{"error", "stackerr"} {
+			for _, kind := range []string{"error", "stackerr", "fmterr"} {
 				cfg := EncCfg{Mode: mode, Level: []int{2, 4, 3}[i%3], TagWidth: 3, MinWidth: 36, Caller: false}
 				out = append(out, EncRec{cfg, "msg", []GAttr{{Key: "a", Val: GVal{Kind: "int", I: 1}}, {Key: "err", Val: GVal{Kind: kind, S: t}}}})
 				out = append(out, EncRec{cfg, "first\nsecond\n", []GAttr{{Key: "err", Val: GVal{Kind: kind, S: t}}, {Key: "z", Val: GVal{Kind: "string", S: "last"}}}})
